@@ -192,6 +192,37 @@ def end_to_end(chk, tier):
             if g != w:
                 chk.violation({'why': 'formula result differs from the addressed element / the helper on the same operands', 'formula': f,
                                'keys': repr(keys), 'impl': g, 'want': w})
+        # the same formula text in several cells of one sheet: COLUMN() is the column of the cell that holds it
+        Cellc = realcode.mods()['Cell']
+        rows = [[None] * 30 for _ in range(2)]
+        spots = [(1, 0), (3, 0), (4, 0), (26, 0), (2, 1), (27, 1)]
+        for c, r in spots:
+            rows[r][c] = '=COLUMN()'
+        rows[0][6] = '=INDEX(A1:C1,1,COLUMN())'
+        rows[1][7] = '=INDEX(A1:C1,1,COLUMN())'
+        try:
+            exc = realcode.executor_for(realcode.load_class(realcode.translate([('S', rows)])))
+            for c, r in spots:
+                g2 = core.outcome(lambda: exc.get_cell(Cellc(0, c, r)).value)
+                chk.count('e2e:column-copies')
+                if g2 != 'I%d' % (c + 1):
+                    chk.violation({'why': 'COLUMN() in one of several cells with the same formula text is not the column of that cell', 'cell': (c, r), 'impl': g2, 'want': c + 1})
+        except Exception as e:  # noqa
+            chk.violation({'why': 'a sheet with COLUMN() in several cells does not translate', 'impl': 'E' + core.exc_class(e)})
+        # a lookup table whose blank cells are filled in later through overrides
+        trows = [[1, 'one'], [2, None], [3, 'three'], [None, None], [5, 'five'], ['=VLOOKUP(2,A1:B5,2,FALSE)', '=MATCH(4,A1:A5,0)', '=INDEX(B1:B5,MATCH(4,A1:A5,0))', '=XMATCH(4,A1:A5,0,-1)']]
+        try:
+            ext = realcode.executor_for(realcode.load_class(realcode.translate([('T', trows)])))
+            for c in range(4):
+                core.outcome(lambda: ext.get_cell(Cellc(0, c, 5)).value)
+            ext.set_cells([Cellc(0, 1, 1, 'two'), Cellc(0, 0, 3, 4), Cellc(0, 1, 3, 'four')])
+            for c, w in enumerate([core.enc('two'), 'I4', core.enc('four'), 'I4']):
+                g3 = core.outcome(lambda: ext.get_cell(Cellc(0, c, 5)).value)
+                chk.count('e2e:table-overrides')
+                if g3 != w:
+                    chk.violation({'why': 'a lookup does not see table cells that were blank in the workbook and are supplied by overrides', 'formula': trows[5][c], 'impl': g3, 'want': w})
+        except Exception as e:  # noqa
+            chk.violation({'why': 'the lookup table workbook does not translate', 'impl': 'E' + core.exc_class(e)})
         # COLUMN() of the formula's own cell: formulas sit in column index fcol (0-based) = 4 here
         g = realcode.eval_formulas(['=COLUMN()'], values)[0]
         if g != core.enc(5):
